@@ -116,6 +116,13 @@ func c12Spec() *histSpec {
 				out = append(out, show(c12Str(n), x, mem(x, "长度"), mem(x, "数目"), mem(x, "首项"), mem(x, "末项"), mem(x, "逆序"), mem(mem(x, "逆序"), "逆序"),
 					mcall(x, "包含", c12Num(1)), mcall(x, "包含", c12Num(7)), mem(x, "文本")))
 				out = append(out, zn.Iter{Vars: []string{"甲K", "甲V"}, Target: x, Body: []zn.Stmt{show(zn.Var{Name: "甲K"}, zn.Var{Name: "甲V"})}})
+				// 寻找 without fixing its numbering: the distance between the answer for v and the answer
+				// for a value that is never stored (a text) is the 1-based position of v's first occurrence (0 when
+				// absent) under either convention (0-based with -1, 1-based with 0)
+				absent := mcall(x, "寻找", c12Str("无"))
+				out = append(out, show(c12Str("寻"), zn.Bin{Op: "-", L: mcall(x, "寻找", c12Num(0)), R: absent},
+					zn.Bin{Op: "-", L: mcall(x, "寻找", c12Num(1)), R: absent}, zn.Bin{Op: "-", L: mcall(x, "寻找", c12Num(2)), R: absent},
+					mcall(x, "包含", c12Num(0)), mcall(x, "包含", c12Num(2))))
 			} else {
 				out = append(out, show(c12Str(n), x, mem(x, "长度"), mem(x, "所有索引"), mem(x, "所有值"),
 					mcall(x, "读取", c12Str("乙")), mcall(x, "读取", c12Str("无")), zn.Call{Name: "生成JSON", Args: []zn.Expr{x}},
@@ -215,9 +222,9 @@ func init() {
 	mc.Register(&mc.Check{
 		ID:    "C12",
 		Level: "model_checking",
-		Rule:  "E2: breadth-first search over operation histories on a list L and a dictionary D (plus one copy of each) from 3 initial states (non-empty, empty, literal with duplicate keys); list operations: guarded write at positions {0,1,2,len,len+1} and at the fractional positions 0.5 and 1.5, 前增 后增 左移 右移 交换 (in and out of range) 合并 (also with the receiver itself among the arguments), setters 首项 末项, copies; dictionary operations over keys 乙 甲 丙 (deliberately unsorted): #k write, 写入 移除 读取, numeric key, two whole-number keys beyond 2^63, copies; a two-name loop over L that appends its position variable to the copy M; values cycle through 0..2 so the space closes under the history bound. Every history of >= 3 operations is also run with the battery only at its end (an observation may itself refresh hidden state). After EVERY operation the full observation battery runs on the real interpreter (fresh run of the whole history) and the reference (slice / key list + map): structural value, display text, length, 首项 末项 逆序 逆序∘逆序 包含, guarded reads at 0,1,2,len,len+1 and at 0.5, 1.5, -0.5 (out of range => error and unchanged), iteration order with indices, 所有索引 所有值, keyed reads of present and absent keys, generated JSON (of the dictionary itself and of it as an item of a list, of a list in a list and under a key).",
+		Rule:  "E2: breadth-first search over operation histories on a list L and a dictionary D (plus one copy of each) from 3 initial states (non-empty, empty, literal with duplicate keys); list operations: guarded write at positions {0,1,2,len,len+1} and at the fractional positions 0.5 and 1.5, 前增 后增 左移 右移 交换 (in and out of range) 合并 (also with the receiver itself among the arguments), setters 首项 末项, copies; dictionary operations over keys 乙 甲 丙 (deliberately unsorted): #k write, 写入 移除 读取, numeric key, two whole-number keys beyond 2^63, copies; a two-name loop over L that appends its position variable to the copy M; values cycle through 0..2 so the space closes under the history bound. Every history of >= 3 operations is also run with the battery only at its end (an observation may itself refresh hidden state). After EVERY operation the full observation battery runs on the real interpreter (fresh run of the whole history) and the reference (slice / key list + map): structural value, display text, length, 首项 末项 逆序 逆序∘逆序 包含 寻找 (first position of 0, 1, 2 relative to the answer for an absent value), guarded reads at 0,1,2,len,len+1 and at 0.5, 1.5, -0.5 (out of range => error and unchanged), iteration order with indices, 所有索引 所有值, keyed reads of present and absent keys, generated JSON (of the dictionary itself and of it as an item of a list, of a list in a list and under a key).",
 		Assumptions: []string{
-			"fractional indices and the numeric convention of 寻找 / 新增 are not asserted (statement leaves them open)",
+			"the numbering of 寻找 is not fixed (only the distance between the answer for a stored value and the answer for an absent one, which is the 1-based first position under either convention); the index convention of 新增 is not asserted",
 			"JSON text of the reference uses Go's shortest float formatting and member order = stored key order",
 			"histories longer than the bound are not covered",
 		},
